@@ -1,0 +1,19 @@
+//go:build verif
+
+// Contracts for package http (witness HTTP client), checked by /verif/govc (see /verif/DESIGN.md, C16).
+// This file contains no code: only structured //@ comments keyed by function.
+
+package http
+
+//@ func (Witness).GetLatestCheckpoint
+//@   returns (out, err)
+//@   let sent := n_do == old(n_do) + 1
+//@   requires w.url != nil && w.client != nil
+//@   modifies req_method, req_url, req_body, n_do, do_method, do_url, do_body, do_err, do_status, do_final_method, do_resp_body, rd_buf
+//@   // one GET for this log's checkpoint path; 404 becomes exactly os.ErrNotExist, 200 the body bytes, anything else an error
+//@   ensures[C16.c1] n_do <= old(n_do) + 1 && (sent ==> do_method == "GET")
+//@   ensures[C16.c2] sent && do_err == nil && do_status == 404 ==> err == os.ErrNotExist && out == nil
+//@   ensures[C16.c3] sent && do_err == nil && do_status == 200 && err == nil ==> str(out) == do_resp_body
+//@   ensures[C16.c4] sent && do_err == nil && do_status != 200 && do_status != 404 ==> err != nil && err != os.ErrNotExist && out == nil
+//@   ensures[C16.c4] (!sent || do_err != nil) ==> err != nil && err != os.ErrNotExist && out == nil
+//@   ensures[C16.c5] err == nil ==> sent && do_err == nil && do_status == 200
